@@ -155,6 +155,7 @@ func genC02(p *Plan, tier string) {
 	r := NewRand(Mix(p.Seed, "c02"))
 	g := &Gen{R: NewRand(Mix(p.Seed, "gen")), O: SwarmOpts(NewRand(Mix(p.Seed, "profile")))}
 	g.O.CoinFlips = true
+	g.O.OmitAll = 0.04
 	k := r.Range(2, 4)
 	bodies := make([][]byte, k)
 	for i := 0; i < k; i++ {
@@ -495,6 +496,7 @@ func genC08(p *Plan, tier string) {
 func genC09(p *Plan, tier string) {
 	r := NewRand(Mix(p.Seed, "c09"))
 	g := &Gen{R: NewRand(Mix(p.Seed, "gen")), O: SwarmOpts(NewRand(Mix(p.Seed, "profile")))}
+	g.O.OmitAll = 0.04 // requests are compared with themselves: an omission of every criterion is in scope here
 	// the configurations the property names: heuristics with a currentChoice taken
 	// from choseToMake, every known alternative considered
 	if r.Bool(0.5) {
@@ -604,6 +606,7 @@ func genC10(p *Plan, tier string) {
 	r := NewRand(Mix(p.Seed, "c10"))
 	g := &Gen{R: NewRand(Mix(p.Seed, "gen")), O: SwarmOpts(NewRand(Mix(p.Seed, "profile")))}
 	g.O.CoinFlips = r.Bool(0.5)
+	g.O.OmitAll = 0.04
 	// interference needs two requests inside the same component: often restrict the run to one
 	// method and / or one or two bias kinds
 	if r.Bool(0.5) {
